@@ -92,7 +92,7 @@ func init() {
 			{Name: "precedence-shifted", File: "token/token.go", Old: "\tcase ADD, SUB, OR, XOR:\n\t\treturn 4\n\tcase MUL, QUO, REM, SHL, SHR, AND, AND_NOT:\n\t\treturn 5", New: "\tcase ADD, SUB, OR:\n\t\treturn 4\n\tcase MUL, QUO, REM, SHL, SHR, AND, AND_NOT, XOR:\n\t\treturn 5", Expect: "precedence/XOR"},
 			{Name: "unary-drops-arrow", File: pp, Old: "\tcase token.ARROW:\n\t\t// channel type or receive expression\n\t\tarrow := p.pos", New: "\tcase token.ILLEGAL:\n\t\t// channel type or receive expression\n\t\tarrow := p.pos", Expect: "dispatch/parseUnaryExpr ARROW"},
 			{Name: "call-args-at-outer-level", File: pp, Old: "func (p *parser) parseCallOrConversion(fun ast.Expr, isCmd bool) *ast.CallExpr {", New: "func (p *parser) parseCallOrConversion(fun ast.Expr, isCmd bool) *ast.CallExpr {\n\tp.exprLev--\n\tdefer func() { p.exprLev++ }()", Expect: "expr-level/parseCallOrConversion parserhs"},
-			{Name: "if-header-level-kept", File: pp, Old: "\touter := p.exprLev\n\tp.exprLev = -1\n", New: "\touter := p.exprLev\n", Expect: "expr-level/parseIfHeader parsesimplestmt"},
+			{Name: "if-header-level-kept", File: pp, Old: "\t// p.tok != token.LBRACE\n\n\touter := p.exprLev\n\tp.exprLev = -1\n", New: "\t// p.tok != token.LBRACE\n\n\touter := p.exprLev\n", Expect: "expr-level/parseIfHeader parsesimplestmt"},
 			{Name: "scanner-number-edit", File: "scanner/scanner.go", Old: "\tif e := lower(s.ch); e == 'e' || e == 'p' {", New: "\tif e := lower(s.ch); e == 'e' || e == 'p' || e == 'd' {", Expect: "deviation/Scanner.scanNumber"},
 			{Name: "branch-needs-semicolon", File: pp, Old: "\tif p.tok != token.SEMICOLON && p.tok != token.RBRACE { // XGo: goto command", New: "\tif p.tok != token.SEMICOLON { // XGo: goto command", Expect: "stmt-end/parser.parseBranchStmt:p.tok"},
 			{Name: "stmt-drops-select", File: pp, Old: "\tcase token.SELECT:\n\t\ts = p.parseSelectStmt()", New: "\tcase token.ILLEGAL:\n\t\ts = p.parseSelectStmt()", Expect: "dispatch/parseStmt SELECT"},
